@@ -472,6 +472,16 @@ theorem C10_ts_no_deadlock {σ O R : Type} (B : Obj σ O R) (x0 : σ) (progs : L
     ¬ Deadlock (tsSys B) finished c :=
   ts_not_stuck (tinv_reach B x0 progs hr)
 
+/-- **Go's writer preference** (`sync.RWMutex` refuses new readers while a writer has announced `Lock()`): every run
+of the wrapper under that rule is a run of `tsSys` — so `C10_ts_linearizable`, `C10_ts_log_is_the_calls` and
+`C10_ts_list_is_sequential` hold for it — and it cannot block itself either: a reader is refused only while a writer is
+pending, and a pending writer gets the mutex as soon as nobody is inside. -/
+theorem C10_ts_writer_preference {σ O R : Type} (B : Obj σ O R) (x0 : σ) (progs : List (List O))
+    (c : Cfg (Sh σ O R) (Th σ O R)) (hr : Reach (tsSysStrict B) (Sh.start x0, progs.map Th.start) c) :
+    Reach (tsSys B) (Sh.start x0, progs.map Th.start) c ∧ ¬ Deadlock (tsSysStrict B) finished c :=
+  ⟨strict_reach_sub hr,
+   ts_strict_not_stuck (tinv_reach B x0 progs (strict_reach_sub hr)) (pinv_reach B x0 progs (strict_reach_sub hr))⟩
+
 /-- The sequential meaning of a call on the list object: a mutating method is the pointer-level model's `step` (=
 the translated code, `C10_code_is_model`), an observer leaves the list alone and reads `Len` / the forward walk /
 the backward walk / `Front` / `Back`. -/
@@ -554,6 +564,13 @@ the abstraction of the state the setup lines reached) executes with exactly the 
 places a call before one that had already returned when it was invoked. -/
 theorem C10_lincheck_sound (s : St) (cs : List CCall) (h : linearizable (absC s) cs = true) :
     ∃ order, LinWitness [] (abs s) cs order := linearizable_sound (abs s) cs h
+
+/-- **… and complete**: a recorded history (every call stamped `inv ≤ ret`, as the harness stamps them) that has a
+linearization is accepted; hence `reject not-linearizable` means that no sequential order of the recorded calls is
+compatible with their real-time order and returns the recorded results — a call did not take effect as one operation. -/
+theorem C10_lincheck_complete (s : St) (cs order : List CCall) (hw : LinWitness [] (abs s) cs order)
+    (hwf : ∀ c ∈ cs, c.inv ≤ c.ret) : linearizable (absC s) cs = true :=
+  linearizable_complete (abs s) cs order hw hwf
 
 /-- the abstract state after the setup `pb A 1; pb A 2; pb A 3; pb B 11; pb B 12` of a forced schedule -/
 def linDemoState : SSt :=
